@@ -93,6 +93,37 @@ def fiber_imports(chk):
                 why), files, {'label': label})
 
 
+def named_case(args):
+    i, label, files, want = args
+    bad = ''
+    for cfg in ('dbg', 'rel'):
+        d = os.path.join(WORK[0], 'nm%d_%s' % (i, cfg))
+        for k, v in files.items():
+            os.makedirs(os.path.dirname(os.path.join(d, k)), exist_ok=True)
+            open(os.path.join(d, k), 'w').write(v)
+        r = vlib.lyrun(BINS[cfg], os.path.join(d, 'main.lay'), ['--steps', '2000000'], timeout=30, cwd=d)
+        if r.outcome in ('timeout', 'harness'):
+            return label, None, files
+        got = [l for l in r.out.split('\n') if l]
+        if r.outcome != 'ok':
+            bad = bad or '%s: outcome %s %s' % (cfg, r.outcome, r.detail)
+        elif got != want:
+            bad = bad or '%s: stdout %r, expected %r' % (cfg, got, want)
+    return label, bad, files
+
+
+def named_modules(chk):
+    jobs = [(i, label, files, want) for i, (label, files, want) in enumerate(gen_modfibers.named_cases())]
+    for label, bad, files in vlib.pmap(named_case, jobs, chunksize=1):
+        if bad is None:
+            chk.inconclusive.append('named-module case did not finish: ' + label)
+            continue
+        chk.evaluations += 2
+        chk.count('named_module_cases')
+        if bad:
+            chk.violation('module names [%s]: %s' % (label, bad), files, {'label': label})
+
+
 def main():
     if '--make-known' in sys.argv:
         import json
@@ -116,6 +147,7 @@ def main():
     WORK[0] = vlib.workdir(PROP)
     chk.run_witnesses(BINS['dbg'])
     fiber_imports(chk)
+    named_modules(chk)
     tags = {}
     for r in vlib.pmap(one, [(chk.seed, i) for i in range(n)], chunksize=4):
         if 'refused' in r:
